@@ -8,8 +8,8 @@ from .. import engine as E
 from ..runner import PropertyCheck
 
 KINDS = {
-    "C01": {"stale-result", "stale-input"},
-    "C02": {"ran-twice", "false-reason", "null-build-ran"},
+    "C01": {"stale-result", "stale-input", "bad-deps-record"},
+    "C02": {"ran-twice", "false-reason", "null-build-ran", "bad-deps-record"},
     "C05": {"callback-after-return", "leak", "cancel-ignored", "stall", "crash", "stale-result", "stale-input", "queue-lifetime"},
     "C06": {"protocol", "schedule-dependent", "queue-lifetime", "stall"},
     "C07": {"bad-cycle", "missed-cycle", "false-cycle", "stall", "crash", "spurious-failure"},
@@ -98,7 +98,7 @@ class EngineCheck(PropertyCheck):
             for _ in range(m):
                 o = dict(opts)
                 if o.pop("latent", False):
-                    cases.append(E.gen_latent_cycle(rng))
+                    cases.append(E.gen_latent_cycle(rng) if rng.chance(2, 3) else E.gen_self_discovery(rng))
                     continue
                 nk = 4 + rng.below(9 if not ctx.thorough else 14)
                 rules = E.gen_program(rng, nk, cyclic=o.pop("cyclic", False), malformed=o.pop("malformed", False),
